@@ -1380,7 +1380,7 @@ Lemma clip_vertices_in_both (l r : qbox) v : valid_box l -> valid_box r ->
 Proof.
   intros Vl Vr Hv. destruct (clip_vertices_inside_lemma _ _ _ Hv) as [A B]. split.
   - intros e He. apply B. intros x Hx.
-    pose proof (rect_all_inside l Vl e He) as I. unfold all_in in I. rewrite Forall_forall in I. now apply I.
+    pose proof (rect_all_inside l Vl e He) as I. unfold all_in in I. rewrite Forall_forall in I. apply I. exact Hx.
   - exact A.
 Qed.
 
@@ -1394,4 +1394,147 @@ Proof.
   - intros v. now apply clip_vertices_in_both.
   - now apply clip_axis_aligned_lemma.
   - now apply inter_area_self.
+Qed.
+
+(* ------------------------------------------------------------------------------------------ *)
+(* Unrotated boxes, end to end: the general IoU (too_far pre-check + clipper + shoelace) IS the closed-form IoU,
+   hence symmetric, in [0,1], and absent exactly when the open rectangles do not meet. *)
+
+Lemma in_rect_unrotated (b : qbox) (p : qpt) : valid_box b -> unrotated b ->
+  box_x0 b <= px p <= box_x1 b -> box_y0 b <= py p <= box_y1 b -> in_rect b p.
+Proof.
+  intros [Ha Hh] U [X0 X1] [Y0 Y1].
+  assert (Wb : 0 < bh b * basp b) by (apply Qmult_lt_0_compat; assumption).
+  pose proof (half_pos _ Wb) as P1. pose proof (half_pos _ Hh) as P2.
+  assert (DX : box_x0 b < box_x1 b) by (unfold box_x0, box_x1; clear - P1; set (u := bh b * basp b / 2) in *; lra).
+  assert (DY : box_y0 b < box_y1 b) by (unfold box_y0, box_y1; clear - P2; lra).
+  pose proof (rect_unrotated b U) as L. unfold in_rect.
+  remember (rect_vertices Qops b) as R eqn:ER. unfold canon in L.
+  inversion L as [|v0 q0 R1 Q1 P0' L1]; subst R. inversion L1 as [|v1 q1 R2 Q2 P1' L2]; subst.
+  inversion L2 as [|v2 q2 R3 Q3 P2' L3]; subst. inversion L3 as [|v3 q3 R4 Q4 P3' L4]; subst.
+  inversion L4; subst.
+  match goal with HH : _ = rect_vertices Qops b |- _ => rewrite <- HH in *; clear HH end.
+  set (x0 := box_x0 b) in *. set (x1 := box_x1 b) in *. set (y0 := box_y0 b) in *. set (y1 := box_y1 b) in *.
+  cbn [edges edges_from last In]. intros e [<-|[<-|[<-|[<-|[]]]]]; cbn [fst snd].
+  - rewrite (crossq_peq3 _ _ _ _ _ _ P3' P0' (peq_refl p)), (E_left x0 y0 y1). nra.
+  - rewrite (crossq_peq3 _ _ _ _ _ _ P0' P1' (peq_refl p)), (E_top x0 x1 y1). nra.
+  - rewrite (crossq_peq3 _ _ _ _ _ _ P1' P2' (peq_refl p)), (E_right x1 y0 y1). nra.
+  - rewrite (crossq_peq3 _ _ _ _ _ _ P2' P3' (peq_refl p)), (E_bottom x0 x1 y0). nra.
+Qed.
+
+Lemma unrotated_unit b : unrotated b -> unit_dir b.
+Proof. intros [C S]. unfold unit_dir. rewrite C, S. reflexivity. Qed.
+
+Lemma to_ltwh_valid b : valid_box b -> valid_ltwh (to_ltwh Qops b).
+Proof.
+  intros [Ha Hh]. unfold valid_ltwh, to_ltwh. cbn [bw bhh]. rewrite qmul. split; [|assumption].
+  apply Qmult_lt_0_compat; assumption.
+Qed.
+
+Lemma to_ltwh_area b : aa_area (to_ltwh Qops b) == box_area Qops b.
+Proof. unfold aa_area, to_ltwh. cbn [bw bhh]. rewrite box_area_q, qmul. ring. Qed.
+
+Lemma too_far_aa_zero (l r : qbox) : valid_box l -> valid_box r -> unrotated l -> unrotated r ->
+  too_far Qops l r = true -> aa_inter Qops (to_ltwh Qops l) (to_ltwh Qops r) == 0.
+Proof.
+  intros Vl Vr Ul Ur T.
+  apply (aa_inter_zero_iff_lemma _ _ (to_ltwh_valid l Vl) (to_ltwh_valid r Vr)).
+  intros [x [y [(A1 & A2 & A3 & A4) (B1 & B2 & B3 & B4)]]].
+  destruct (to_ltwh_q l) as (L1 & L2 & L3 & L4). destruct (to_ltwh_q r) as (R1 & R2 & R3 & R4).
+  rewrite L1 in A1. rewrite L3 in A2. rewrite L2 in A3. rewrite L4 in A4.
+  rewrite R1 in B1. rewrite R3 in B2. rewrite R2 in B3. rewrite R4 in B4.
+  assert (F : too_far Qops l r = false).
+  { apply (too_far_sound_lemma l r (x, y)); auto using unrotated_unit.
+    - apply in_rect_unrotated; auto; cbn [px py fst snd]; split; apply Qlt_le_weak; assumption.
+    - apply in_rect_unrotated; auto; cbn [px py fst snd]; split; apply Qlt_le_weak; assumption. }
+  congruence.
+Qed.
+
+Lemma inter_area_unrotated (l r : qbox) : valid_box l -> valid_box r -> unrotated l -> unrotated r ->
+  inter_area Qops l r == aa_inter Qops (to_ltwh Qops l) (to_ltwh Qops r).
+Proof.
+  intros Vl Vr Ul Ur. unfold inter_area. destruct (too_far Qops l r) eqn:T.
+  - rewrite (too_far_aa_zero l r Vl Vr Ul Ur T). reflexivity.
+  - now apply clip_axis_aligned_lemma.
+Qed.
+
+Lemma iou_unrotated_lemma (l r : qbox) : valid_box l -> valid_box r -> unrotated l -> unrotated r ->
+  oeq (iou Qops l r)
+      (iou_of Qops (aa_inter Qops (to_ltwh Qops l) (to_ltwh Qops r)) (box_area Qops l) (box_area Qops r)).
+Proof.
+  intros Vl Vr Ul Ur. unfold iou. apply iou_of_comp; [now apply inter_area_unrotated | reflexivity | reflexivity].
+Qed.
+
+Lemma oeq_sym x y : oeq x y -> oeq y x.
+Proof. destruct x, y; cbn [oeq]; auto. intros H. now symmetry. Qed.
+
+Lemma oeq_trans x y z : oeq x y -> oeq y z -> oeq x z.
+Proof. destruct x, y, z; cbn [oeq]; auto; try contradiction. intros H1 H2. now rewrite H1. Qed.
+
+Lemma iou_of_swap i a b : oeq (iou_of Qops i a b) (iou_of Qops i b a).
+Proof.
+  unfold iou_of. destruct (eqb Qops i (zero Qops)); cbn [oeq]; [exact I|]. qn.
+  setoid_replace (a + b - i) with (b + a - i) by ring. reflexivity.
+Qed.
+
+Lemma iou_unrotated_sym_lemma (l r : qbox) : valid_box l -> valid_box r -> unrotated l -> unrotated r ->
+  oeq (iou Qops l r) (iou Qops r l).
+Proof.
+  intros Vl Vr Ul Ur.
+  eapply oeq_trans; [apply (iou_unrotated_lemma l r); assumption|].
+  eapply oeq_trans; [|apply oeq_sym, (iou_unrotated_lemma r l); assumption].
+  eapply oeq_trans; [apply iou_of_swap|].
+  apply iou_of_comp; [apply aa_inter_sym_lemma | reflexivity | reflexivity].
+Qed.
+
+Lemma iou_of_range (i a b v : Q) : 0 <= i -> i <= a -> i <= b -> 0 < a -> 0 < b ->
+  iou_of Qops i a b = Some v -> 0 < v <= 1.
+Proof.
+  intros I0 I1 I2 Pl Pr E. unfold iou_of in E.
+  destruct (eqb Qops i (zero Qops)) eqn:Z; [discriminate|]. injection E as <-.
+  assert (NZ : ~ i == 0).
+  { intro Hz. assert (T : eqb Qops i (zero Qops) = true) by (apply eqb_iff; exact Hz). congruence. }
+  assert (IP : 0 < i) by (destruct (Qle_lt_or_eq _ _ I0) as [|Heq]; [assumption | exfalso; apply NZ; now symmetry]).
+  assert (EV : div Qops i (sub Qops (add Qops a b) i) == i / (a + b - i)) by (rewrite qdiv, qsub, qadd; reflexivity).
+  rewrite EV. assert (D : 0 < a + b - i) by lra. split.
+  - apply Qlt_shift_div_l; [exact D | lra].
+  - apply Qle_shift_div_r; [exact D | lra].
+Qed.
+
+Lemma inter_area_unrotated_bounds (l r : qbox) : valid_box l -> valid_box r -> unrotated l -> unrotated r ->
+  0 <= inter_area Qops l r /\ inter_area Qops l r <= box_area Qops l /\ inter_area Qops l r <= box_area Qops r.
+Proof.
+  intros Vl Vr Ul Ur.
+  pose proof (inter_area_unrotated l r Vl Vr Ul Ur) as EI.
+  destruct (aa_inter_range_lemma _ _ (to_ltwh_valid l Vl) (to_ltwh_valid r Vr)) as (I0 & I1 & I2).
+  pose proof (to_ltwh_area l) as Al. pose proof (to_ltwh_area r) as Ar.
+  revert EI I0 I1 I2 Al Ar.
+  generalize (inter_area Qops l r), (box_area Qops l), (box_area Qops r),
+             (aa_inter Qops (to_ltwh Qops l) (to_ltwh Qops r)), (aa_area (to_ltwh Qops l)), (aa_area (to_ltwh Qops r)).
+  intros i a b x al ar EI I0 I1 I2 Al Ar. repeat split; lra.
+Qed.
+
+Lemma iou_unfold (l r : qbox) :
+  iou Qops l r = iou_of Qops (inter_area Qops l r) (box_area Qops l) (box_area Qops r).
+Proof. reflexivity. Qed.
+
+Lemma iou_unrotated_range_lemma (l r : qbox) v : valid_box l -> valid_box r -> unrotated l -> unrotated r ->
+  iou Qops l r = Some v -> 0 < v <= 1.
+Proof.
+  intros Vl Vr Ul Ur E. rewrite iou_unfold in E.
+  destruct (inter_area_unrotated_bounds l r Vl Vr Ul Ur) as (I0 & I1 & I2).
+  exact (iou_of_range (inter_area Qops l r) (box_area Qops l) (box_area Qops r) v I0 I1 I2
+           (box_area_pos l Vl) (box_area_pos r Vr) E).
+Qed.
+
+Lemma iou_unrotated_none_iff_lemma (l r : qbox) : valid_box l -> valid_box r -> unrotated l -> unrotated r ->
+  (iou Qops l r = None <-> ~ exists x y, in_open (to_ltwh Qops l) x y /\ in_open (to_ltwh Qops r) x y).
+Proof.
+  intros Vl Vr Ul Ur.
+  rewrite <- (aa_inter_zero_iff_lemma _ _ (to_ltwh_valid l Vl) (to_ltwh_valid r Vr)).
+  rewrite <- (inter_area_unrotated l r Vl Vr Ul Ur).
+  unfold iou, iou_of. destruct (eqb Qops (inter_area Qops l r) (zero Qops)) eqn:Z.
+  - apply eqb_iff in Z. split; [intros _; exact Z | reflexivity].
+  - split; [discriminate|]. intros Hz.
+    assert (T : eqb Qops (inter_area Qops l r) (zero Qops) = true) by (apply eqb_iff; exact Hz). congruence.
 Qed.
